@@ -22,37 +22,55 @@ import (
 	"github.com/ProjectSerenity/firefly/kernel/cpu"
 	"github.com/ProjectSerenity/firefly/kernel/mm"
 	"github.com/ProjectSerenity/firefly/kernel/multiboot"
+	"pgregory.net/rapid"
 )
 
 const (
 	vmArenaFrames = 8192
 	vmFrameMask   = uintptr(0x000ffffffffff000)
 	vmJunk        = 0xA5
+	// vmHighBit is the top bit of a physical address (bit 51). The host never hands out
+	// addresses with it, so the machine uses it to give some frames a physical name in the
+	// upper half of the physical address space: such a frame is host address | vmHighBit, and
+	// only that name refers to it (the same address without the bit is not memory at all).
+	vmHighBit = uintptr(1) << 51
 )
 
 type vmMachine struct {
-	fd      int
-	arena   []byte
-	base    uintptr
-	next    int // next unused arena frame
-	dirty   int // frames that need re-junking at the next reset
-	cr3     uintptr
+	fd       int
+	arena    []byte
+	base     uintptr
+	next     int // next unused arena frame
+	dirty    int // frames that need re-junking at the next reset
+	cr3      uintptr
 	lastVirt map[uintptr]uintptr // host pte pointer -> virtual entry address
-	flushed []uintptr
+	flushed  []uintptr
 	// flushedLeaf[i]: the last-level entry the MMU would have seen for flushed[i] at the
 	// moment of the invalidation (0 when the walk from the active root does not get that far)
 	flushedLeaf []uintptr
 
-	allocs   int // allocations in the current operation
-	failAt   int // fail the failAt-th allocation of the current operation (0 = never)
-	failErr  *kernel.Error
-	handed   []mm.Frame // frames handed out in the current operation
+	allocs  int // allocations in the current operation
+	failAt  int // fail the failAt-th allocation of the current operation (0 = never)
+	failErr *kernel.Error
+	handed  []mm.Frame // frames handed out in the current operation
 
 	tempOut   bool
 	tempAlias mm.Page
 	tempFail  bool // make the next temporary mapping fail
 
 	aliases [][]byte
+
+	// hiMask chooses the frames that live in the upper half of the physical address space:
+	// arena frame i does when bit i%64 is set
+	hiMask uint64
+	high   []bool // per arena frame: it has an upper-half name
+	// lowNext frames handed out by the allocator seam next get low names regardless of hiMask:
+	// the kernel reads the ACTIVE root through its physical address (PageDirectoryTable.Map on
+	// an inactive space), which only works for memory the host can address
+	lowNext int
+	// rootExtra: additional bits (no-execute, software bits, accessed/dirty) on the recursive
+	// entry of the boot root, as a boot loader or the CPU may have left them
+	rootExtra uintptr
 }
 
 var vmErrInjected = &kernel.Error{Module: "verif", Message: "injected frame allocation failure"}
@@ -106,6 +124,10 @@ func (m *vmMachine) reset() {
 	m.flushedLeaf = nil
 	m.allocs, m.failAt, m.failErr, m.handed = 0, 0, nil, nil
 	m.tempOut, m.tempFail = false, false
+	m.hiMask, m.rootExtra, m.lowNext = 0, 0, 0
+	if m.high == nil {
+		m.high = make([]bool, vmArenaFrames)
+	}
 	m.install()
 }
 
@@ -122,7 +144,7 @@ func (m *vmMachine) install() {
 		m.flushedLeaf = append(m.flushedLeaf, leaf)
 	}
 	ptePtrFn = func(entry uintptr) unsafe.Pointer {
-		h, ok := m.hw(entry)
+		h, ok := m.hwPtr(entry)
 		if !ok {
 			panic(vmFault{fmt.Sprintf("simulated page fault in kernel mode: page-table access at virtual address %#x is not mapped", entry)})
 		}
@@ -136,7 +158,7 @@ func (m *vmMachine) install() {
 			panic(vmFault{"harness: nextAddrFn called for an entry that was not produced by the walk"})
 		}
 		// what the kernel computes on real hardware: entry address << 9
-		h, ok := m.hw(virt << 9)
+		h, ok := m.hwPtr(virt << 9)
 		if !ok {
 			panic(vmFault{fmt.Sprintf("simulated page fault in kernel mode: clearing the new table at virtual address %#x which is not mapped", virt<<9)})
 		}
@@ -148,7 +170,13 @@ func (m *vmMachine) install() {
 			m.failErr = vmErrInjected
 			return mm.InvalidFrame, vmErrInjected
 		}
-		f := m.newFrame()
+		var f mm.Frame
+		if m.lowNext > 0 {
+			m.lowNext--
+			f = m.newLowFrame()
+		} else {
+			f = m.newFrame()
+		}
 		m.handed = append(m.handed, f)
 		return f, nil
 	})
@@ -165,8 +193,8 @@ func (m *vmMachine) install() {
 		}
 		// callers access the frame through the returned page; hand out the host
 		// alias of the frame and remember exactly this one value
-		m.tempOut, m.tempAlias = true, mm.Page(f)
-		return mm.Page(f), nil
+		m.tempOut, m.tempAlias = true, mm.Page(m.ptr(f.Address())>>12)
+		return m.tempAlias, nil
 	}
 	unmapFn = func(p mm.Page) *kernel.Error {
 		if m.tempOut && p == m.tempAlias {
@@ -204,29 +232,50 @@ func vmRestore() {
 	mm.SetFrameAllocator(nil)
 }
 
+// inArena reports whether the physical address names simulated physical memory.
 func (m *vmMachine) inArena(addr uintptr) bool {
-	return addr >= m.base && addr < m.base+uintptr(m.next)*4096
+	h := addr &^ vmHighBit
+	if h < m.base || h >= m.base+uintptr(m.next)*4096 {
+		return false
+	}
+	return m.high[(h-m.base)>>12] == (addr&vmHighBit != 0)
 }
+
+func (m *vmMachine) isHigh(idx int) bool { return m.high[idx] }
+
+// ptr is the host address behind a physical address.
+func (m *vmMachine) ptr(addr uintptr) uintptr { return addr &^ vmHighBit }
 
 // newFrame takes the next junk-filled frame of the arena.
 func (m *vmMachine) newFrame() mm.Frame {
+	return m.newFrameNamed(m.hiMask>>(uint(m.next)%64)&1 == 1)
+}
+
+// newLowFrame: a frame that may become the root of the active address space.
+func (m *vmMachine) newLowFrame() mm.Frame { return m.newFrameNamed(false) }
+
+func (m *vmMachine) newFrameNamed(high bool) mm.Frame {
 	if m.next >= vmArenaFrames {
 		panic(vmFault{"harness: physical arena exhausted"})
 	}
-	f := mm.Frame((m.base + uintptr(m.next)*4096) >> 12)
+	a := m.base + uintptr(m.next)*4096
+	m.high[m.next] = high
+	if high {
+		a |= vmHighBit
+	}
 	m.next++
-	return f
+	return mm.Frame(a >> 12)
 }
 
 func (m *vmMachine) frameBytes(f mm.Frame) []byte {
-	off := f.Address() - m.base
+	off := m.ptr(f.Address()) - m.base
 	return m.arena[off : off+4096]
 }
 
 // alias maps another read-only view of an arena frame: a "virtual page" whose
 // contents are, by construction, the contents of the frame.
 func (m *vmMachine) alias(f mm.Frame) uintptr {
-	b, err := syscall.Mmap(m.fd, int64(f.Address()-m.base), 4096, syscall.PROT_READ, syscall.MAP_SHARED)
+	b, err := syscall.Mmap(m.fd, int64(m.ptr(f.Address())-m.base), 4096, syscall.PROT_READ, syscall.MAP_SHARED)
 	if err != nil {
 		panic(vmFault{"harness: alias mmap: " + err.Error()})
 	}
@@ -237,12 +286,12 @@ func (m *vmMachine) alias(f mm.Frame) uintptr {
 // newRoot builds an empty top-level table with the recursive entry, the way
 // the boot code hands one to the kernel.
 func (m *vmMachine) newRoot() mm.Frame {
-	f := m.newFrame()
+	f := m.newLowFrame()
 	b := m.frameBytes(f)
 	for i := range b {
 		b[i] = 0
 	}
-	*(*uintptr)(unsafe.Pointer(f.Address() + 511*8)) = f.Address() | uintptr(FlagPresent|FlagRW)
+	*(*uintptr)(unsafe.Pointer(m.ptr(f.Address()) + 511*8)) = f.Address() | uintptr(FlagPresent|FlagRW) | m.rootExtra
 	return f
 }
 
@@ -252,6 +301,16 @@ func (m *vmMachine) hw(virt uintptr) (uintptr, bool) {
 	return m.hwFrom(m.cr3, virt)
 }
 
+// hwPtr is hw for accesses the kernel itself makes: the translation has to end in
+// simulated physical memory, and the result is the host address behind it.
+func (m *vmMachine) hwPtr(virt uintptr) (uintptr, bool) {
+	a, ok := m.hw(virt)
+	if !ok || !m.inArena(a) {
+		return 0, false
+	}
+	return m.ptr(a), true
+}
+
 func (m *vmMachine) hwFrom(root, virt uintptr) (uintptr, bool) {
 	table := root
 	for lvl := 0; lvl < 4; lvl++ {
@@ -259,7 +318,7 @@ func (m *vmMachine) hwFrom(root, virt uintptr) (uintptr, bool) {
 			return 0, false
 		}
 		idx := (virt >> (39 - 9*uint(lvl))) & 511
-		e := *(*uintptr)(unsafe.Pointer(table + idx*8))
+		e := *(*uintptr)(unsafe.Pointer(m.ptr(table) + idx*8))
 		if e&1 == 0 {
 			return 0, false
 		}
@@ -277,7 +336,7 @@ func (m *vmMachine) hwEntries(root, virt uintptr) (entries []uintptr, ptrs []uin
 			return
 		}
 		idx := (virt >> (39 - 9*uint(lvl))) & 511
-		p := table + idx*8
+		p := m.ptr(table) + idx*8
 		e := *(*uintptr)(unsafe.Pointer(p))
 		entries = append(entries, e)
 		ptrs = append(ptrs, p)
@@ -306,7 +365,7 @@ func (m *vmMachine) enumerate(root uintptr) (leaves map[uint64]vmLeaf, tables []
 			if lvl == 0 && i == 511 {
 				continue
 			}
-			e := *(*uintptr)(unsafe.Pointer(table + i*8))
+			e := *(*uintptr)(unsafe.Pointer(m.ptr(table) + i*8))
 			if e&1 == 0 {
 				continue
 			}
@@ -339,7 +398,7 @@ func (m *vmMachine) enumerate(root uintptr) (leaves map[uint64]vmLeaf, tables []
 func (m *vmMachine) snapshot(tables []uintptr) [][]byte {
 	out := make([][]byte, len(tables))
 	for i, t := range tables {
-		out[i] = append([]byte(nil), m.arena[t-m.base:t-m.base+4096]...)
+		out[i] = append([]byte(nil), m.arena[m.ptr(t)-m.base:m.ptr(t)-m.base+4096]...)
 	}
 	return out
 }
@@ -360,12 +419,20 @@ func vmPageOf(p4, p3, p2, p1 uintptr) uint64 {
 // run to run, and rapid only shrinks failures whose text is reproducible).
 func (m *vmMachine) ff(f uint64) string {
 	a := uintptr(f) << 12
-	if a >= m.base && a < m.base+vmArenaFrames*4096 {
-		return fmt.Sprintf("phys#%d", (a-m.base)>>12)
+	if h := m.ptr(a); h >= m.base && h < m.base+vmArenaFrames*4096 {
+		idx := int((h - m.base) >> 12)
+		switch {
+		case m.isHigh(idx) && a&vmHighBit != 0:
+			return fmt.Sprintf("phys#%d(upper half)", idx)
+		case m.isHigh(idx):
+			return fmt.Sprintf("[phys#%d with address bit 51 lost]", idx)
+		case a&vmHighBit != 0:
+			return fmt.Sprintf("[phys#%d with a stray address bit 51]", idx)
+		}
+		return fmt.Sprintf("phys#%d", idx)
 	}
 	return fmt.Sprintf("%#x", f)
 }
-
 
 // staleAfterFlush reports a page of the active address space whose last-level
 // entry is no longer what it was when its TLB entry was last invalidated: the
@@ -401,8 +468,26 @@ func (m *vmMachine) frameTag(e uintptr) uintptr {
 	if f == 0 {
 		return 0
 	}
-	if m.inArena(f) {
-		return ((f - m.base) >> 12 << 12) & vmFrameMask
+	if h := m.ptr(f); h >= m.base && h < m.base+vmArenaFrames*4096 {
+		return ((h-m.base)>>12<<12)&vmFrameMask | f&vmHighBit
 	}
 	return f
+}
+
+// vmGenPhys draws the two machine parameters shared by the cases of C04-C06: which frames have
+// upper-half physical names, and the extra bits on the boot root's recursive entry.
+func vmGenPhys(t *rapid.T) (hi, rootFlags uint64) {
+	switch rapid.IntRange(0, 7).Draw(t, "hiclass") {
+	case 0:
+		hi = ^uint64(0)
+	case 1, 2:
+		hi = rapid.Uint64().Draw(t, "himask")
+	}
+	switch rapid.IntRange(0, 5).Draw(t, "rootclass") {
+	case 0:
+		rootFlags = 1 << 63
+	case 1:
+		rootFlags = rapid.Uint64().Draw(t, "rootbits") & (0xfff<<52 | 0x60 | 0xe00)
+	}
+	return
 }
